@@ -209,13 +209,13 @@ RULES.update({
            "(r in [1/16,16], L in [64,512], all windows/interpolations, N up to 2048, FFT blocks in [32,16384]) with 1..4 tones below the pass edge (one at 0.999 of it); least-squares fit of amplitudes, delays and residual on a steady-state segment; "
            "trivial = empty/too narrow pass band or FFT block outside the domain",
     "C02": "stage ir: as for C01, stop-band maximum over [stop edge, N/2] and the -6 dB point. stage band: one stop-band tone (uniform between the stop edge and the input Nyquist) or, when up-sampling, an arbitrary input tone whose fundamental is fitted "
-           "and removed; two runs 90 degrees apart, phase-averaged output power against the window's rejection figure - 1.5 dB + twice the textbook interpolation bound; trivial = no stop band below the input Nyquist",
+           "and removed; two runs 90 degrees apart, phase-averaged output power against the window's rejection figure - 3.5 dB (two coincident components + 0.5 dB guard) + twice the textbook interpolation bound; trivial = no stop band below the input Nyquist",
 })
 META.update({
     "C01": dict(technique="runtime monitoring: impulse-response extraction from the live resampler + DFT magnitude checks (layer A); end-to-end multi-tone runs with least-squares tone fit of amplitude, delay and residual (layer B)",
                 text="Exploration. Layer A reads the prototype filter the resampler really uses (through the dispatched kernel) and checks linear phase, branch DC gains, pass-band ripple and image leakage for every window over the length grid. Layer B pushes tone mixtures below the pass edge through all five anti-aliased types and compares fitted amplitudes (1% / 0.1%), pairwise delays and the residual with the larger-of(window leakage, 2x textbook interpolation bound) figure, f32 with a single-precision floor.",
-                note="The absolute far-stop-band figures are enforced for f_cutoff <= 0.9*calculate_cutoff only (at f_cutoff = cutoff the unchanged Hann prototype reaches -67.9 dB, so there the C02 rejection figure - 3 dB is used); 2 dB guard band; FFT blocks restricted to [32, 16384] frames (calculate_cutoff's documented range starts at 32).", design="5/C01"),
+                note="The absolute far-stop-band figures are enforced for f_cutoff <= 0.9*calculate_cutoff only (at f_cutoff = cutoff the unchanged Hann prototype reaches -67.9 dB, so there the C02 rejection figure - 3 dB is used); 2 dB guard band on the leakage figures and a 25% guard band on the amplitude tolerances (unchanged Hann prototype: 1.09% right at the pass edge for f_cutoff*min(1,ratio) < 2*(1-cutoff)); FFT blocks restricted to [32, 16384] frames (calculate_cutoff's documented range starts at 32).", design="5/C01"),
     "C02": dict(technique="runtime monitoring: impulse-response extraction + exact stop-band maximum of the live prototype (layer A); phase-averaged stop-band / image power of end-to-end tone runs (layer B)",
-                text="Exploration. Layer A: for every window over the length grid the live prototype's response beyond f_cutoff + (1-cutoff)/min(1,ratio) stays below the window's rejection figure and the gain at f_cutoff is 0.5. Layer B: stop-band tones and up-sampling images through the real resamplers, output power averaged over two phases, against figure - 1.5 dB + 2x textbook bound; FFT types -100 dB.",
+                text="Exploration. Layer A: for every window over the length grid the live prototype's response beyond f_cutoff + (1-cutoff)/min(1,ratio) stays below the window's rejection figure and the gain at f_cutoff is 0.5. Layer B: stop-band tones and up-sampling images through the real resamplers, output power averaged over two phases, against figure - 3.5 dB + 2x textbook bound; FFT types -100 dB.",
                 note="Per-component / power-sum reading of 'attenuated by' (coherent tone+image at integer ratios reads 6 dB higher); FFT blocks restricted to >= 32 frames.", design="5/C02"),
 })
